@@ -7,6 +7,7 @@ import (
 	"errors"
 	"fmt"
 	"math/rand"
+	"sync"
 
 	"github.com/iotaledger/iota.go/consts"
 	"github.com/iotaledger/iota.go/trinary"
@@ -20,7 +21,7 @@ func init() {
 	fw.Register(&fw.Prop{
 		ID:       "C06",
 		Parallel: 4, // cases are judged on 4 goroutines per shard: the library functions are stateless, shared state inside them shows up as wrong verdicts
-		Rule: "seeded histories of 3..14 operations on up to three instances (Absorb of 1..6 blocks split over several calls, Squeeze of 1..4 blocks in several calls with 1..64 destination lanes, Clone at any point with the two copies continued differently, Reset followed by new absorbs, rejected calls with batch 0/65 or a length that is no multiple of 243) with batch sizes 1..64 (emphasis 1, 2, 63, 64) and trit contents random / all 0 / all 1 / all -1 / lanes identical but one trit / one hot lane; every squeezed lane is compared with a single-lane model sponge fed that lane's input alone; rejected calls must return the documented error and leave CopyState unchanged; Reset must give the CopyState of a fresh instance; a clone's state equals the original's and later operations on one do not change the other. Run under the default (assembly) and the purego build; the output digests of the two builds must be equal. " +
+		Rule: "seeded histories of 3..14 operations on up to three instances (Absorb of 1..6 blocks split over several calls, Squeeze of 1..4 blocks in several calls with 1..64 destination lanes, Clone at any point with the two copies continued differently, Reset followed by new absorbs, rejected calls with batch 0/65 or a length that is no multiple of 243) with batch sizes 1..64 (emphasis 1, 2, 63, 64) and trit contents random / all 0 / all 1 / all -1 / lanes identical but one trit / one hot lane; every squeezed lane is compared with a single-lane model sponge fed that lane's input alone; rejected calls must return the documented error and leave CopyState unchanged; Reset must give the CopyState of a fresh instance; a clone's state equals the original's and later operations on one do not change the other; the closing squeezes of all instances of a history (originals and clones) run concurrently in separate goroutines; in half of the histories the caller's dst slice is reused from call to call (a quarter pre-filled with one shared placeholder slice) and every output handed out earlier must be unchanged at the end. Run under the default (assembly) and the purego build; the output digests of the two builds must be equal. " +
 			"Non-trivial: distinct histories with batch size < 64, or >= 2 absorb calls, or >= 2 squeeze calls, or a clone/reset.",
 		Assumptions: []string{"the single-lane Curl-P-81 model in harness/oracle/curlp (self-tested on published Curl-P-81 hashes incl. multi-block absorb and squeeze)", "absorb-after-squeeze (documented panic) and lanes beyond the absorbed batch are outside the statement and not judged"},
 		Builds:      []string{"default", "purego", "386"},
@@ -31,7 +32,7 @@ func init() {
 			h := describe(fw.GetU64(key))
 			return map[string]interface{}{"history_seed": fw.GetU64(key), "operations": h}
 		},
-		Required: []string{"lanes compared", "absorb calls", "squeeze calls", "clones", "resets", "rejected calls checked", "partial batch histories"},
+		Required: []string{"histories reusing the caller's dst slice", "histories whose instances were squeezed concurrently", "lanes compared", "absorb calls", "squeeze calls", "clones", "resets", "rejected calls checked", "partial batch histories"},
 		Post: func(r *fw.RunResult) {
 			d, p := r.BuildDigests["default"], r.BuildDigests["purego"]
 			r.Extra["build_digests_equal"] = d == p && d != ""
@@ -43,7 +44,10 @@ func init() {
 	})
 }
 
+type opT = op
+
 type op struct {
+	final  bool   // closing squeeze: the closing squeezes of all instances run concurrently
 	kind   string // absorb, squeeze, clone, reset, bad-absorb, bad-squeeze
 	inst   int
 	blocks int
@@ -113,7 +117,7 @@ func build(seed uint64) *history {
 	}
 	// finish: every instance is squeezed once more so that all earlier effects become observable
 	for i := 0; i < ninst; i++ {
-		h.ops = append(h.ops, op{kind: "squeeze", inst: i, blocks: 1 + r.Intn(2), lanes: h.batch})
+		h.ops = append(h.ops, op{kind: "squeeze", inst: i, blocks: 1 + r.Intn(2), lanes: h.batch, final: true})
 	}
 	return h
 }
@@ -202,7 +206,111 @@ func judge(class string, key []byte, o *fw.Obs) {
 	}
 	freshL, freshH := snapshot(fresh)
 
-	for step, op := range h.ops {
+	// The caller's dst slice is reused from call to call in half of the histories (as the package's own
+	// benchmarks do), in a quarter pre-filled with one shared placeholder slice; every output handed out
+	// earlier is kept by reference and must still hold the same trits at the end of the history.
+	reuseDst, placeholder := seed%2 == 0, seed%4 == 0
+	sharedDst := make([]trinary.Trits, maxBatch)
+	type keptOut struct {
+		ref  trinary.Trits
+		cp   trinary.Trits
+		what string
+	}
+	var keptOuts []keptOut
+	checkKept := func(when string) bool {
+		for _, k := range keptOuts {
+			for i := range k.cp {
+				if k.ref[i] != k.cp[i] {
+					o.Fail("aliasing", "history %d: trits returned earlier (%s) were modified by a later call (%s): trit %d was %d and is %d now", seed, k.what, when, i, k.cp[i], k.ref[i])
+					return false
+				}
+			}
+		}
+		return true
+	}
+	mkDst := func(lanes, n int) []trinary.Trits {
+		if !reuseDst {
+			return make([]trinary.Trits, lanes)
+		}
+		d := sharedDst[:lanes]
+		if placeholder {
+			ph := make(trinary.Trits, n)
+			for j := range d {
+				d[j] = ph
+			}
+		}
+		return d
+	}
+	finalsDone := false
+	for step, cur := range h.ops {
+		op := cur
+		if op.final && finalsDone {
+			continue
+		}
+		if op.final {
+			// the closing squeezes of all instances (originals and their clones) run concurrently
+			finalsDone = true
+			type fin struct {
+				op  opT
+				dst []trinary.Trits
+				err error
+				pan interface{}
+			}
+			var fins []*fin
+			for _, fo := range h.ops[step:] {
+				fins = append(fins, &fin{op: fo, dst: make([]trinary.Trits, fo.lanes)})
+			}
+			var wg sync.WaitGroup
+			for _, f := range fins {
+				wg.Add(1)
+				go func(f *fin) {
+					defer wg.Done()
+					defer func() { f.pan = recover() }()
+					f.err = insts[f.op.inst].c.Squeeze(f.dst, 243*f.op.blocks)
+				}(f)
+			}
+			wg.Wait()
+			for _, f := range fins {
+				where := fmt.Sprintf("history %d closing squeeze of instance %d (batch %d, %d instances squeezed concurrently)", seed, f.op.inst, h.batch, len(fins))
+				if f.pan != nil {
+					o.Fail("panic", "%s: panic: %v", where, f.pan)
+					return
+				}
+				if f.err != nil {
+					o.Fail("error", "%s: valid Squeeze returned %v", where, f.err)
+					return
+				}
+				n := 243 * f.op.blocks
+				in := insts[f.op.inst]
+				for j := range in.m {
+					want := in.m[j].Squeeze(n)
+					if j >= f.op.lanes {
+						continue
+					}
+					o.Count("lanes compared")
+					if len(f.dst[j]) != n {
+						o.Fail("output", "%s: lane %d has %d trits, expected %d", where, j, len(f.dst[j]), n)
+						return
+					}
+					for k := range want {
+						if f.dst[j][k] != want[k] {
+							o.Fail("output", "%s: lane %d trit %d is %d, the Curl-P-81 sponge of that lane's input alone gives %d", where, j, k, f.dst[j][k], want[k])
+							return
+						}
+					}
+					b := make([]byte, n)
+					for k, t := range f.dst[j] {
+						b[k] = byte(t)
+					}
+					o.Out(b)
+				}
+				o.Count("squeeze calls")
+			}
+			if len(fins) > 1 {
+				o.Count("histories whose instances were squeezed concurrently")
+			}
+			continue
+		}
 		in := insts[op.inst]
 		where := fmt.Sprintf("history %d step %d (%s on instance %d, batch %d)", seed, step, op.kind, op.inst, h.batch)
 		switch op.kind {
@@ -225,7 +333,7 @@ func judge(class string, key []byte, o *fw.Obs) {
 		case "squeeze":
 			nSq++
 			n := 243 * op.blocks
-			dst := make([]trinary.Trits, op.lanes)
+			dst := mkDst(op.lanes, n)
 			var err error
 			if !o.Try("Squeeze", func() { err = in.c.Squeeze(dst, n) }) {
 				return
@@ -256,6 +364,12 @@ func judge(class string, key []byte, o *fw.Obs) {
 					b[k] = byte(t)
 				}
 				o.Out(b)
+				if j < 4 && len(keptOuts) < 64 {
+					keptOuts = append(keptOuts, keptOut{dst[j], append(trinary.Trits(nil), dst[j]...), fmt.Sprintf("lane %d of step %d", j, step)})
+				}
+			}
+			if !checkKept(fmt.Sprintf("step %d", step)) {
+				return
 			}
 		case "clone":
 			nSpecial++
@@ -334,6 +448,12 @@ func judge(class string, key []byte, o *fw.Obs) {
 		}
 		// independence: an operation on one instance must not change the others
 		_ = step
+	}
+	if !checkKept("end of the history") {
+		return
+	}
+	if reuseDst {
+		o.Count("histories reusing the caller's dst slice")
 	}
 	if h.batch < maxBatch {
 		o.Count("partial batch histories")
